@@ -24,7 +24,7 @@ VERIF = os.path.dirname(os.path.abspath(__file__))
 if VERIF not in sys.path:
     sys.path.insert(0, VERIF)
 
-from sim import runner  # noqa: E402
+from sim import findings, runner  # noqa: E402
 
 BUDGETS = {
     # pid: tier: (total run indices, per-worker wall budget seconds)
@@ -88,22 +88,11 @@ def _fresh_replay(path):
 
 
 def load_known():
-    path = os.path.join(VERIF, "known_findings.json")
-    if not os.path.exists(path):
-        return []
-    return json.load(open(path)).get("findings", [])
+    return findings.load_known()
 
 
 def match_known(pid, viol, known):
-    """A violation is a known finding only if a listed `known` entry's signature matches exactly."""
-    sig = viol.get("signature") or {}
-    for k in known:
-        if k.get("status") != "known" or k.get("property") != pid:
-            continue
-        ks = k.get("signature", {})
-        if ks and all(sig.get(a) == b for a, b in ks.items()) and list(viol["class"]) == [k["oracle"], k["kind"]]:
-            return k
-    return None
+    return findings.match_known(pid, viol["class"], viol.get("signature"), known)
 
 
 def cmd_check(pid, tier):
